@@ -140,6 +140,10 @@ def run(tier):
   pct, ppt = (20.0, 5.0) if tier == 'quick' else (90.0, 15.0)
   for p in progs:
     cfgs = ['default'] + ([rnd.choice(anfx.CONFIGS[1:])] if 'witness' not in p.tags else [])
+    if 'lazy' in p.tags:
+      # configurations that leave the direct operands of a lazy construct alone but name deeper
+      # sub-expressions: the transformer must still reject (or preserve laziness)
+      cfgs = ['default', 'call_args_only', 'call_args_that_are_calls']
     for c in cfgs:
       m = {'api': 'anf', 'config': c}
       tasks.append(('vf.checks.C18', 'pre_work', {'prog': p.as_dict(), 'mode': m, 'bounds': bounds,
